@@ -1863,7 +1863,8 @@ fn plan_inner(prop: Prop, thorough: bool) -> Vec<(usize, Config)> {
                             n_create: n,
                             reg: reg0,
                             triples: false,
-                            max_depth: if thorough { Some(8) } else { Some(6) },
+                            // (thorough: the full depth for three triples, one level less for the others)
+                            max_depth: if thorough { Some(if i < 3 { 8 } else { 7 }) } else { Some(6) },
                         },
                     )
                 })
@@ -1890,7 +1891,8 @@ fn plan_inner(prop: Prop, thorough: bool) -> Vec<(usize, Config)> {
                             n_create: n,
                             reg: regs[i],
                             triples: true,
-                            max_depth: if thorough { Some(8) } else { Some(6) },
+                            // (thorough: the full depth for three triples, one level less for the others)
+                            max_depth: if thorough { Some(if i < 3 { 8 } else { 7 }) } else { Some(6) },
                         },
                     )
                 })
@@ -1909,7 +1911,8 @@ fn plan_inner(prop: Prop, thorough: bool) -> Vec<(usize, Config)> {
                             n_create: if thorough { 3 } else { 3 },
                             reg: reg0,
                             triples: false,
-                            max_depth: if thorough { Some(6) } else { Some(5) },
+                            // (thorough: depth 6 for two triples, depth 5 for the other two)
+                            max_depth: if thorough { Some(if i == 0 || i == 2 { 6 } else { 5 }) } else { Some(5) },
                         },
                     )
                 })
